@@ -36,6 +36,9 @@ def main():
     variant = os.path.basename(src)
     if '_' in variant:                  # re-validation of a kept seed: seeded/<prop>_<variant>
         variant = variant.split('_')[-1]
+    if not checks and isinstance(meta.get('checks'), dict):
+        # re-validation: the checks recorded for this seed (its own property's and any other that was found to catch it)
+        checks = [c for c, r in meta['checks'].items() if isinstance(r, dict)]
     checks = checks or [prop]
     patch = os.path.join(src, 'patch.diff')
     demo = os.path.join(src, 'demo.py')
@@ -56,10 +59,14 @@ def main():
         rc, out = sh('/venv/bin/python %s' % demo, cwd=wt, env=env)
         result['demo_fails_with_change'] = (rc != 0)
         result['demo_output_with_change'] = out[-600:]
-        rc, out = sh('/venv/bin/python -m pytest -q -p no:cacheprovider tests --deselect tests/test_examples.py 2>&1 | tail -3',
-                     cwd=wt, env=env)
-        result['tests_pass_with_change'] = (' failed' not in out and ' passed' in out)
-        result['tests_tail'] = out.strip().split('\n')[-1]
+        if '--fast' in sys.argv and meta.get('tests_pass_with_change') and meta.get('tests_tail'):
+            # re-validation of a kept seed whose patch is unchanged: the suite result recorded when it was kept stands
+            result['tests_pass_with_change'], result['tests_tail'] = True, meta['tests_tail']
+        else:
+            rc, out = sh('/venv/bin/python -m pytest -q -p no:cacheprovider tests --deselect tests/test_examples.py 2>&1 | tail -3',
+                         cwd=wt, env=env)
+            result['tests_pass_with_change'] = (' failed' not in out and ' passed' in out)
+            result['tests_tail'] = out.strip().split('\n')[-1]
         result['ran'].append('worktree %s: demo (clean), git apply, demo (changed), pytest tests --deselect tests/test_examples.py' % wt)
     finally:
         sh('git -C /repo worktree remove --force %s' % wt)
